@@ -185,6 +185,17 @@ def gen_checks():
     if ast.unparse(t.handlers[0].body[-1]) != 'return False' or \
             ast.unparse(t.body[0]) != 'test_value = test_value[key]':
         raise Refuse('_find_in_dict handler has an unknown shape')
+    # ---- _external.py: the reply test and the Timeout conversion
+    emod = parse('oslo_policy/_external.py')
+    ok_reply = True
+    for cname in ('HttpCheck', 'HttpsCheck'):
+        call = ast.unparse(find_func(find_class(emod, cname).body, '__call__'))
+        if call.count("return r.text.lstrip('\"').rstrip('\"') == 'True'") != 1 or \
+                "except Timeout:\n        raise RuntimeError('Timeout in REST API call')" not in call:
+            ok_reply = False
+    out += '(* HttpCheck/HttpsCheck: body stripped of double quotes at both ENDS must equal True *)\n'
+    out += 'Definition reply_test_known : bool := %s.\n\n' % ('true' if ok_reply else 'false')
+
     out += '(* classes named in the except clauses *)\n'
     for nm, h in (('catch_rule', h_rule), ('catch_role_subst', h_role),
                   ('catch_generic_subst', h_gsub), ('catch_generic_literal', h_glit),
